@@ -369,6 +369,28 @@ def _run_real(case):
                           twin=twin)
             _check_pos(ctx, f'{case["aper"]}[{k}]', s[k], e[k], a[k], orc,
                        True, dict(params, k=k))
+        # history independence on one aperture object: the masked calls above
+        # must not influence later calls with another (or no) mask
+        if mask is not None and mask.any() and not twin:
+            s3, e3 = aper.do_photometry(data, error=err, method=method,
+                                        subpixels=subpix)
+            a3 = np.atleast_1d(aper.area_overlap(data, method=method,
+                                                 subpixels=subpix))
+            fresh = mk()
+            s4, e4 = fresh.do_photometry(data, error=err, method=method,
+                                         subpixels=subpix)
+            a4 = np.atleast_1d(fresh.area_overlap(data, method=method,
+                                                  subpixels=subpix))
+            conds = []
+            for k in range(len(refs)):
+                conds += [same(s3[k], s4[k]),
+                          same(e3[k] * e3[k], e4[k] * e4[k]),
+                          same(a3[k], a4[k])]
+            r, m = ctx.holds(z3.And(conds), 'history')
+            if r == 'sat':
+                ctx.find('history-on-aperture', 'results of an unmasked call '
+                         'depend on an earlier masked call on the same '
+                         'aperture object', ctx.witness(m), params=params)
         # many positions == one at a time (solver equality of the terms)
         if len(refs) > 1 and not twin:
             conds = []
@@ -610,6 +632,21 @@ def replay(f):
         rm = _pool()[p['aper']]().to_mask(**kw)
         rm = [rm] if aper.isscalar else rm
         refs = [(m.data, m.bbox.iymin, m.bbox.ixmin) for m in rm]
+    if key == 'history-on-aperture':
+        with warnings.catch_warnings():
+            warnings.simplefilter('ignore')
+            aper.do_photometry(d, error=e, mask=mask, **kw)
+            aper.area_overlap(d, mask=mask, **kw)
+            s3, e3 = aper.do_photometry(d, error=e, **kw)
+            a3 = np.atleast_1d(aper.area_overlap(d, **kw))
+            fresh = _pool()[p['aper']]()
+            s4, e4 = fresh.do_photometry(d, error=e, **kw)
+            a4 = np.atleast_1d(fresh.area_overlap(d, **kw))
+        bad = not (np.allclose(s3, s4, equal_nan=True)
+                   and np.allclose(e3, e4, equal_nan=True)
+                   and np.allclose(a3, a4, equal_nan=True))
+        return bad, f'after a masked call: sums {s3} areas {a3}; fresh ' \
+                    f'aperture: sums {s4} areas {a4}'
     d0 = d.copy()
     e0 = None if e is None else e.copy()
     m0 = None if mask is None else mask.copy()
